@@ -20,6 +20,15 @@ class Role:
 
     name: Optional[str] = None
 
+    def __eq__(self, other) -> bool:
+        """Roles are equal if they have the same name.
+        Roles which have no name (yet) - those of `h.Roles(n)` and `n * h.Role()` - are each a role of their own."""
+        if not isinstance(other, Role):
+            return NotImplemented
+        if self.name is None or other.name is None:
+            return self is other
+        return self.name == other.name
+
     def __rmul__(self, num: int) -> List["Role"]:
         """# Right multiplication. Creates `num` copies of this Role."""
         if not isinstance(num, int):
